@@ -111,6 +111,11 @@ def generate(seed, tier):
             threads.append(out)
         rec["threads"] = threads
         rec["fe_args"] = {"period": mrng.choice((0, 2, 10, 60)), "limit": mrng.choice((1, 2, 3, 5, 10))}
+        # "the same search results": generated query trees (prefix, wildcard, fuzzy, phrase, ranges ... included)
+        # through the BufferedWriter's own searcher
+        from whoosim import queries as Q
+        qr = random.Random("%s/queries" % seed)
+        rec["queries"] = [Q.gen_query(qr, cfg, depth=qr.choice((1, 1, 2))) for _ in range(4)]
     else:
         # async: one async transaction, optionally racing a blocker that holds the lock
         rec["txs"] = [{"body": [op for op in gen_doc_ops(wrng, cfg, dg, wrng.randint(1, 6), list(range(12)))
@@ -431,6 +436,23 @@ class BufferedFront(object):
                                 except Exception as e:  # noqa
                                     raise Violation("buffered_view", "a search through BufferedWriter.searcher() raised %s: %s" % (type(e).__name__, e),
                                                     sig="buffered_view:search_raised:" + exc_sig(e))
+                                from whoosim import queries as Q
+                                for spec in self.record.get("queries") or []:
+                                    try:
+                                        qexp = sorted(Q.evaluate(spec, mi.docs, mi.schema))
+                                    except Q.Ambiguous:
+                                        continue
+                                    try:
+                                        qgot = sorted(h["u"] for h in srch.search(Q.build(spec, mi.schema), limit=None))
+                                    except (SimAbort, SimKilled, HarnessError):
+                                        raise
+                                    except Exception as e:  # noqa
+                                        raise Violation("buffered_view", "%s through BufferedWriter.searcher() raised %s: %s" % (Q.show(spec), type(e).__name__, e),
+                                                        sig="buffered_view:search_raised:" + exc_sig(e))
+                                    s.count("buffered_query_checks")
+                                    if qgot != qexp:
+                                        raise Violation("buffered_view", "BufferedWriter.searcher(): %s returns uids %s, the committed+buffered documents that match are %s"
+                                                        % (Q.show(spec), qgot[:12], qexp[:12]), sig="buffered_view:query")
                                 if full != exp or nlim != len(exp) or not set(limu) <= set(exp) or len(limu) != min(1, len(exp)):
                                     raise Violation("buffered_view", "BufferedWriter.searcher(): Term(t,%s) returns %s (limit=1: %s, len %s), committed+buffered documents that match: %s"
                                                     % (word, full, limu, nlim, exp), sig="buffered_view:search")
